@@ -203,6 +203,7 @@ fn drop_conn(run: &RunDesc, c: usize) -> RunDesc {
                 Action::Release => Action::Release,
                 Action::Tick(ms) => Action::Tick(*ms),
                 Action::AcceptError(e) => Action::AcceptError(*e),
+                Action::AcceptOutage(ms) => Action::AcceptOutage(*ms),
             }
         })
         .collect();
@@ -253,7 +254,7 @@ fn minimise(run: &RunDesc, class: &str) -> RunDesc {
     // probes and other single actions
     let mut i = 0;
     while i < cur.actions.len() && tries < limit {
-        if matches!(cur.actions[i], Action::Probe | Action::Hold | Action::Release | Action::Tick(_) | Action::AcceptError(_) | Action::Drain(..) | Action::HalfClose(_) | Action::Close(_) | Action::Reset(_)) {
+        if matches!(cur.actions[i], Action::Probe | Action::Hold | Action::Release | Action::Tick(_) | Action::AcceptError(_) | Action::AcceptOutage(_) | Action::Drain(..) | Action::HalfClose(_) | Action::Close(_) | Action::Reset(_)) {
             let mut cand = cur.clone();
             cand.actions.remove(i);
             if still_fails(&cand, class, &mut tries) {
